@@ -268,6 +268,17 @@ func genC20(repo string) (string, error) {
 	if err := o.skeletonCalls(syn, "RegionSyncer", "Sync", "skel_SyncerSync", sopt); err != nil {
 		return "", err
 	}
+	// the other writer of the cluster record <root>/raft: PutClusterConfig -> RaftCluster.PutConfig
+	cl, err := goast.Load(repo, "server/cluster/cluster.go")
+	if err != nil {
+		return "", err
+	}
+	copt := goast.SkelOpt{Calls: set("putMetaLocked", "SaveMeta", "Clone", "GetId"), Conds: true}
+	for _, fn := range []string{"PutConfig", "putMetaLocked"} {
+		if err := o.skeletonCanon(cl, "RaftCluster", fn, "skel_"+fn, copt); err != nil {
+			return "", err
+		}
+	}
 	bc, err := srv.Func("Server", "bootstrapCluster")
 	if err != nil {
 		return "", err
